@@ -18,6 +18,21 @@ NA = {
 PENDING = "claimed in DESIGN.md; its engine is not built yet in this tree, so no check is registered (nothing is claimed for it until the check exists)"
 
 CHECKS = {
+ "C18": dict(engine="E-ALLOC alloc.stateless + alloc.bitmap + alloc.dict", category="fault_enumeration",
+   technique="deterministic simulation with fault injection: k-th allocation of the call fails, every k",
+   text="Allocation-failure injection through a compile-time allocator seam: for every sampled allocating call (dictionary encode/size/stats/decode, the PFOR analyse->size->encode protocol, float encode/decode, adaptive analyse/encode/decode under each forced encoding) and for bitmap and dictionary object histories, every k is enumerated: the k-th allocation request issued during the targeted call returns NULL. Each faulted execution is compared with the fault-free one: no crash/ASan report/step-budget overrun, no block left live that is not owned by a live object, no double free, no write beyond the advertised destination that the fault-free call does not make, and the outcome is the failure indication or a fully correct result (bytes equal to the fault-free result or decoding to the input); long-lived objects must stay internally consistent and the history continues against them. Enumeration over k is complete per sampled call; the calls and histories themselves are sampled.",
+   design_ref="DESIGN.md 2.3, 3/C18",
+   note="Trusted: the allocator shim (sim/seams/alloc.cc), ASan, the reference models. Single failure per targeted call. void bitmap mutators that cannot report a partial effect are listed as open known findings (known_findings.jsonl) and printed as KNOWN-FINDING."),
+ "C14": dict(engine="E-PIPE pipe.input", category="fault_enumeration",
+   technique="deterministic simulation with fault injection: storage faults between real encoder and real decoder",
+   text="Producer/medium/consumer simulation: the real encoder's bytes pass through a fault-injecting medium (every truncation point of encodings <= 512 bytes, seeded bit flips, boundary-byte overwrites, torn rewrites, zeroed tails, duplicated chunks, inflated length fields, hostile strings) and are handed to every length-taking decoder on an exact-size heap copy, so that a read at or beyond the declared size, a write at or beyond the output capacity, an allocation request above 8 MiB + 64 x input length, a crash, or more than 5e7 instrumented steps is detected deterministically. varintTaggedGet's complete (first byte, n) grid is enumerated, checking 'cut short => length 0'. Truncation is enumerated completely per sampled encoding; corruption is seeded exploration.",
+   design_ref="DESIGN.md 2.6, 3/C14",
+   note="Trusted: ASan redzones (byte granularity), the allocation cap and step budget in the harness. Elias inputs are judged at byte granularity. varintBP128GetCount is included (it is told its input size)."),
+ "C13": dict(engine="E-PIPE pipe.capacity", category="fault_enumeration",
+   technique="deterministic simulation with fault injection: consumer-side capacity shortfall, every capacity enumerated",
+   text="For every produced valid encoding of N elements and every capacity m in [0, N] (N <= 300; boundary grid above; (start, size) grid for the block reader) each capacity-taking decoder decodes into an exact-size heap block of m elements followed by the ASan redzone; nothing at or beyond element m may be written, the returned count must be <= m, and the returned elements must be a prefix of the encoded sequence (covers both documented behaviours, return 0 or return a prefix). The shortfall dimension is enumerated completely per encoding; encodings are the sampled workload.",
+   design_ref="DESIGN.md 2.6, 3/C13",
+   note="Trusted: ASan redzones; the baseline rule (inputs whose full-capacity decode does not reproduce the input are skipped as C02/C06 matters). Inputs carry 64 bytes of slack because over-reads of valid data are not this property's subject."),
  "C08": dict(engine="E-HIST hist.bitmap", category="exploration",
    technique="deterministic simulation: seeded operation histories against a reference set model",
    text="Seeded search over operation histories (add/remove/ranges/clear/clone/bulk add/set algebra/serialise+deserialise on a pool of three objects, biased to drive cardinality across 4096 and to hit run containers) executed against the real varintBitmap.c; after every operation the object's answers (return values, cardinality, emptiness, ascending duplicate-free iteration, array export, sampled and full membership sweeps, operands unchanged) are compared with a 65536-bit set model. Exploration is the right level: the history space is unbounded, transitions depend on the path taken, and a clean batch is evidence over the seeds run, not proof.",
@@ -58,6 +73,12 @@ def main():
         "engines": [
             {"name": "E-HIST", "path": "sim/engines/hist_bitmap.cc", "serves_properties": ["C08", "C18"],
              "kind_free_text": "seeded operation histories against reference models, optional allocation faults"},
+            {"name": "E-ALLOC", "path": "sim/engines/alloc_stateless.cc", "serves_properties": ["C18"],
+             "kind_free_text": "allocator seam: k-th allocation request of a call fails, every k; leak/double-free accounting"},
+            {"name": "E-ALLOC-DICT", "path": "sim/engines/alloc_dict.cc", "serves_properties": ["C18"],
+             "kind_free_text": "dictionary object histories under allocation faults"},
+            {"name": "E-PIPE", "path": "sim/engines/pipe.cc", "serves_properties": ["C13", "C14"],
+             "kind_free_text": "producer (real encoder) -> fault-injecting medium -> consumer (real decoder on exact-size blocks)"},
         ],
         "checks": checks,
         "not_applicable": na,
